@@ -404,3 +404,131 @@ def paging(ctx, prog, ev):
     ctx.ob("C12-D6/PAGING", ok, fv.site(pc[0]), f"for every announcer count 1..100 the client's continuation test `{unparse(cont_if.test)[:80]}` fetches "
            f"every page the server's count `{unparse(pages_expr)}` and slice `{unparse(sl)}` serve", detail=detail, func=q,
            key=f"C12-D6/PAGING|{q}|agreement")
+
+
+_base_check_c12 = check
+
+
+def check(ctx):            # noqa: F811  (extends the rules above)
+    _base_check_c12(ctx)
+    handlers(ctx, ctx.prog)
+
+
+def handlers(ctx, prog):
+    """the local halves of 'announced blobs are findable': what a storing node records, serves and pages, and what a searching node
+    accumulates and yields — each effect under exactly the handler's own tests"""
+    from ..astutil import norm_text
+    DS = "lbry.dht.protocol.data_store.DictDataStore"
+    RPC = "lbry.dht.protocol.protocol.KademliaRPC"
+    IF = "lbry.dht.protocol.iterative_find"
+    # --- store bookkeeping
+    ad = ctx.fa(f"{DS}.add_peer_to_blob")
+    c, k = ad.fi.params()[1:3]
+    vocab = [f"{k} in self._data_store", "len(current) > 0"]
+    R.effect_table(ctx, "C12-D1/STORE", ad, vocab, [
+        (f"self._data_store[{k}] = [({c}, now)]", f"not {k} in self._data_store", "the first announcement of a blob creates its list"),
+        (f"self._data_store[{k}].append(({c}, now))", f"{k} in self._data_store and not len(current) > 0", "a new announcer is appended"),
+        (f"self._data_store[{k}][self._data_store[{k}].index(current[0])] = ({c}, now)", f"{k} in self._data_store and len(current) > 0", "a known announcer's entry is replaced (fresh timestamp)"),
+    ], "store: ")
+    cur = [x for x in ad.stmts(ast.Assign) if any(dotted(t) == "current" for t in x.targets)]
+    lam = [n for x in cur for n in ast.walk(x.value) if isinstance(n, ast.Lambda)]
+    ok = len(cur) == 1 and len(lam) == 1 and R.same_test(lam[0].body, f"{lam[0].args.args[0].arg}[0] == {c}") and \
+        norm_text(cur[0].value) == f"list(filter({norm_text(lam[0])}, self._data_store[{k}]))"
+    ctx.ob("C12-D1/STORE", ok, ad.site(), "store: 'known announcer' = an entry of this blob whose contact equals the announcing contact", func=ad.fi.qualname, key="C12-D1/STORE|current")
+    rm = ctx.fa(f"{DS}.removed_expired_peers")
+    q = rm.fi.qualname
+    R.effect_table(ctx, "C12-D1/STORE", rm, ["ts + constants.DATA_EXPIRATION < now", "self._peer_manager.peer_is_good(peer) is False", "self._data_store[key]"], [
+        ("to_remove.append((peer, ts))", "", "purge: an expired (or bad-peer) entry is marked"),
+        ("self._data_store[key].remove(item)", "", "purge: every marked entry is removed"),
+        ("del self._data_store[key]", "not self._data_store[key]", "purge: a blob without entries is forgotten"),
+    ], "")
+    fb = ctx.fa(f"{DS}.filter_bad_and_expired_peers")
+    ys = list(fb.local_nodes(ast.Yield))
+    ok = len(ys) == 1 and dotted(ys[0].value) == "peer"
+    ctx.ob("C12-D1/STORE", ok, fb.site(), "serve: unexpired peers are passed on", func=fb.fi.qualname)
+    for y in ys:
+        R.exact_gate(ctx, "C12-D1/STORE", fb, R.stmt_of(y), "self._peer_manager.peer_is_good(peer) is not False", "serve: …unless the peer is known bad — no further condition",
+                     key="C12-D1/STORE|serve-exact")
+    fe = ctx.fa(f"{DS}.filter_expired_peers")
+    for y in fe.local_nodes(ast.Yield):
+        R.exact_gate(ctx, "C12-D1/STORE", fe, R.stmt_of(y), "ts + constants.DATA_EXPIRATION > now", "serve: every unexpired announcement is served — no further condition", key="C12-D1/STORE|unexpired-exact")
+    ok = any(norm_text(f.iter) == f"self._data_store.get({fe.fi.params()[1]}, [])" and norm_text(f.target) == "(peer, ts)" for f in fe.stmts(ast.For))
+    ctx.ob("C12-D1/STORE", ok, fe.site(), "serve: the entries looked at are those stored under the requested key", func=fe.fi.qualname)
+    # --- store RPC
+    st = ctx.fa(f"{RPC}.store")
+    _, rc, bh, tok, port = st.fi.params()
+    R.refusal_table(ctx, "C12-D1/RPC", st, [("invalid length of blob hash", f"len({bh}) != constants.HASH_BITS // 8"), ("invalid tcp port", f"not 0 < {port} < 65535"),
+                                             ("Invalid token", f"not self.verify_token({tok}, {rc}.compact_ip()) and not self.loop.time() - self.protocol.started_listening_time < constants.TOKEN_SECRET_REFRESH_INTERVAL")],
+                    "store RPC")
+    for c_ in st.calls(name="add_peer_to_blob"):
+        ok = [norm_text(a) for a in c_.args] == [rc, bh]
+        ctx.ob("C12-D1/RPC", ok, st.site(c_), "store RPC: the announcement recorded is (requesting contact, blob hash)", func=st.fi.qualname)
+        R.only_terms(ctx, "C12-D1/RPC", st, c_, [f"len({bh}) != constants.HASH_BITS // 8", f"0 < {port} < 65535", f"self.verify_token({tok}, {rc}.compact_ip())",
+                                                  "self.loop.time() - self.protocol.started_listening_time < constants.TOKEN_SECRET_REFRESH_INTERVAL"],
+                     "store RPC: every well-formed, authorised request is recorded", key="C12-D1/RPC|store|record-always")
+    ok = any(norm_text(x) == f"{rc}.update_tcp_port({port})" for x in st.stmts(ast.Expr))
+    ctx.ob("C12-D1/RPC", ok, st.site(), "store RPC: the announcer's TCP port is taken from the request (it is what value lookups hand out)", func=st.fi.qualname, key="C12-D1/RPC|store|port")
+    # --- find_value RPC
+    fv = ctx.fa(f"{RPC}.find_value")
+    q = fv.fi.qualname
+    _, rc, key, page = fv.fi.params()
+    vocab = [f"len({key}) != constants.HASH_LENGTH", page, "self.protocol.protocol_version", "len(peers) < constants.K", f"{key}.hex() in self.protocol.data_store.completed_blobs", "peers",
+             "len(peers) > constants.K", f"{page} * constants.K < len(peers)"]
+    R.refusal_table(ctx, "C12-D6/RPC", fv, [("invalid blob_exchange hash length", f"len({key}) != constants.HASH_LENGTH")], "find_value RPC")
+    R.effect_table(ctx, "C12-D6/RPC", fv, vocab, [
+        (f"{page} = {page} if {page} > 0 else 0", "", "negative page numbers are clamped to 0"),
+        (f"response[b'contacts'] = self.find_node({rc}, {key})[:constants.K]", f"not {page}", "the first page also carries the K closest contacts (the lookup can continue)"),
+        ("peers.append(self.compact_address())", f"len(peers) < constants.K and {key}.hex() in self.protocol.data_store.completed_blobs", "a node that holds the blob itself lists itself"),
+        ("response[PAGE_KEY] = 0", "not peers", "no peers: zero pages"),
+        ("response[PAGE_KEY] = (len(peers) + constants.K - 1) // constants.K", "peers", "page count = ceil(peers / K)"),
+        (f"response[{key}] = peers[{page} * constants.K:{page} * constants.K + constants.K]", f"{page} * constants.K < len(peers)", "the requested page is the K peers from index page·K"),
+        ("return response", "", "the response is returned"),
+    ], "find_value RPC: ")
+    pl = [x for x in fv.stmts(ast.Assign) if any(dotted(t) == "peers" for t in x.targets)]
+    ok = len(pl) == 1 and isinstance(pl[0].value, ast.ListComp) and norm_text(pl[0].value.elt) == "peer.compact_address_tcp()" and \
+        norm_text(pl[0].value.generators[0].iter) == f"self.protocol.data_store.get_peers_for_blob({key})" and len(pl[0].value.generators[0].ifs) == 1 and \
+        R.same_test(pl[0].value.generators[0].ifs[0], f"not {rc}.tcp_port or peer.compact_address_tcp() != {rc}.compact_address_tcp()")
+    ctx.ob("C12-D6/RPC", ok, fv.site(), "find_value RPC: the peers served are the stored announcers of that key (compact TCP address), except the requester itself", func=q,
+           key="C12-D6/RPC|peers")
+    # --- value finder accumulation
+    cr = ctx.fa(f"{IF}.IterativeValueFinder.check_result_ready")
+    rs = cr.fi.params()[1]
+    R.effect_table(ctx, "C12-D5/YIELD", cr, [f"{rs}.found", "blob_peer not in self.blob_peers", "to_yield"], [
+        ("self.blob_peers.add(blob_peer)", f"{rs}.found and blob_peer not in self.blob_peers", "a peer not seen before is remembered"),
+        ("to_yield.append(blob_peer)", f"{rs}.found", "…and queued for the caller"),
+        ("self.iteration_queue.put_nowait(to_yield)", f"{rs}.found and to_yield", "new peers are handed to the caller"),
+    ], "value lookup: ")
+    ok = any(norm_text(R.prev_stmt(x) or ast.Pass()) == "self.blob_peers.add(blob_peer)" for x in cr.stmts(ast.Expr) if norm_text(x) == "to_yield.append(blob_peer)")
+    ctx.ob("C12-D5/YIELD", ok, cr.site(), "value lookup: queueing follows remembering in the same branch", func=cr.fi.qualname)
+    sp = ctx.fa(f"{IF}.IterativeValueFinder.send_probe")
+    pr = sp.fi.params()[1]
+    R.effect_table(ctx, "C12-D5/YIELD", sp, ["parsed.found", f"len(self.discovered_peers[{pr}]) != already_known + len(parsed.found_compact_addresses)",
+                                              "len(parsed.found_compact_addresses) >= constants.K", f"self.peer_pages[{pr}] < parsed.pages", f"{pr} in self.contacted"], [
+        (f"self.discovered_peers[{pr}].update(decoded_peers)", "parsed.found", "every decoded peer of a page is recorded for that contact"),
+        ("decoded_peers.add(decode_tcp_peer_from_compact_address(compact_addr))", "parsed.found", "every compact address of the page is decoded"),
+        (f"self.peer_pages[{pr}] += 1", f"parsed.found and not len(self.discovered_peers[{pr}]) != already_known + len(parsed.found_compact_addresses) and "
+         f"len(parsed.found_compact_addresses) >= constants.K and self.peer_pages[{pr}] < parsed.pages", "the next page is requested after a full, duplicate-free page when more pages are announced"),
+        (f"self.contacted.remove({pr})", f"parsed.found and len(parsed.found_compact_addresses) >= constants.K and {pr} in self.contacted",
+         "…and the contact is re-armed so that it is probed for that page"),
+    ], "value lookup: ")
+    rets = sp.stmts(ast.Return)
+    ok = len(rets) >= 2 and all(dotted(r.value) == "parsed" for r in rets) and sp.path([sp.cfg.entry], [sp.cfg.exit], avoid=lambda n: n.kind == "return", include_exc=False) is None
+    ctx.ob("C12-D5/YIELD", ok, sp.site(), "value lookup: the parsed response is returned on every path (it is what check_result_ready inspects)", func=sp.fi.qualname)
+    ok = any(norm_text(x) == "parsed = FindValueResponse(self.key, response)" for x in sp.stmts(ast.Assign)) and \
+        any(norm_text(x) == f"response = await self.protocol.get_rpc_peer({pr}).find_value(self.key, page=page)" for x in sp.stmts(ast.Assign)) and \
+        any(norm_text(x) == f"page = self.peer_pages[{pr}]" for x in sp.stmts(ast.Assign))
+    ctx.ob("C12-D5/YIELD", ok, sp.site(), "value lookup: the probe asks this contact for this key at the tracked page and parses the reply against the key", func=sp.fi.qualname)
+    # --- node finder
+    prq = ctx.fa(f"{IF}.IterativeNodeFinder.put_result")
+    fi_, fin = prq.fi.params()[1:3]
+    R.effect_table(ctx, "C12-D5/YIELD", prq, ["to_yield", fin], [
+        ("self.yielded_peers.update(to_yield)", "to_yield", "yielded contacts are remembered"),
+        ("self.iteration_queue.put_nowait(to_yield)", "to_yield", "…and handed to the caller"),
+        ("self.iteration_queue.put_nowait(None)", fin, "the end-of-search marker is queued when the search finishes (the consumer terminates on it)"),
+    ], "node lookup: ")
+    se = ctx.fa(f"{IF}.IterativeNodeFinder.search_exhausted")
+    ok = any(norm_text(x) == "self.put_result(self.active.keys(), finish=True)" for x in se.stmts(ast.Expr))
+    ctx.ob("C12-D5/YIELD", ok, se.site(), "node lookup: an exhausted search flushes the active contacts with finish=True", func=se.fi.qualname)
+    be = ctx.fa(f"{IF}.IterativeFinder.search_exhausted")
+    ok = any(norm_text(x) == "self.iteration_queue.put_nowait(None)" and not R.atomic_facts_at(be, x)[0] for x in be.stmts(ast.Expr))
+    ctx.ob("C12-D4/END", ok, be.site(), "an exhausted search always queues the end marker (the async iterator stops on it instead of waiting forever)", func=be.fi.qualname, key="C12-D4/END|exhausted")
